@@ -192,12 +192,32 @@ FIXED = [
  ('C14', 'eval-explicit-globals-gets-frame-locals', 'f22154d',
   "eval('q', {'q': 5}) returned the caller's local q: frame locals were injected although only globals were given",
   {'kind': 'frame', 'fname': 'f_eval_explicit', 'mode': 'to_graph'}),
+ ('C18', 'slice-named-as-value', '68d16f7',
+  "x[a():b()] and x[a:b, c] were rewritten into 'tmp = a():b()' (ast.Slice no longer an ast.slice): output did not compile",
+  {'body': '''def f(a, b, c):
+    r = L('t1')[T('t2', a):T('t3', b)]
+    n = L('t4')[T('t5', a):T('t6', 1):T('t7', b), T('t8', c)]
+    return (0, 0, 0)
+'''}),
  ('C04', 'nested-conditional-expression-native', '97e2f5a',
   "a conditional expression nested in the test or a branch of another one stayed native (visit_IfExp did not visit children)",
   'C04MATRIX'),
 ]
 
-OPEN = []
+OPEN = [
+ {'property': 'C18', 'key': 'anf-hoisting-not-in-evaluation-order', 'status': 'open',
+  'what': "ANF names the sub-expressions of all children before the children themselves (generic_visit, then _ensure_fields_in_anf), so "
+          "sub-expressions of a later sibling are computed before an earlier sibling: F(F(x), F(y, F(z))) computes F(z) before F(x); dict "
+          "displays evaluate all keys before all values; store-target sub-expressions run before the assigned value. Same events, different "
+          "order. Not repaired: the pinned tests anf_test.test_function_call_and_expr, test_tuple_literal_and_unary and "
+          "test_deeply_nested_multi_value_assign assert the out-of-order temporaries, so an evaluation-order traversal fails the unedited suite.",
+  'witness': {'body': '''def f(a, b, c):
+    r = F(F(T('t1', a)), F(T('t2', b), F(T('t3', c))))
+    n = {T('k1', 1): T('v1', a), T('k2', 2): T('v2', b)}
+    L('o')[T('t4', a)] = T('t5', b)
+    return (r, n, 0)
+'''}},
+]
 
 def main():
   out = []
